@@ -369,7 +369,7 @@ func init() {
 	kinds = append(kinds, "BLS-G1", "BLS-G2")
 }
 
-var faults = []string{"", "sig-flip", "sig-trunc", "sig-append", "sig-SplusL", "sig-zeros", "sig-other", "msg-flip", "msg-extend", "msg-trunc", "ctx-alter", "ctx-256", "pk-other", "pk-flip", "pk-trunc", "pk-append", "mode", "stored-key", "hedged-short", "hedged-error", "ctx-allpos", "pk-infinity"}
+var faults = []string{"", "sig-flip", "sig-trunc", "sig-append", "sig-SplusL", "sig-zeros", "sig-other", "msg-flip", "msg-extend", "msg-trunc", "ctx-alter", "ctx-256", "pk-other", "pk-flip", "pk-trunc", "pk-append", "mode", "stored-key", "hedged-short", "hedged-error", "ctx-allpos", "pk-infinity", "sig-infinity"}
 
 func gen(r *core.PRNG, tier string) any {
 	var w []int
@@ -391,7 +391,7 @@ func gen(r *core.PRNG, tier string) any {
 	}
 	for i := 0; i < n; i++ {
 		m := Msg{Len: r.EdgeLen(300, 0, 1, 64, 128, 136), Ctx: r.EdgeLen(255, 0, 1, 255), Rst: r.Chance(1, 4)}
-		m.Fault = faults[r.Pick(12, 22, 8, 6, 6, 2, 4, 6, 3, 3, 5, 2, 4, 5, 2, 2, 5, 5, 2, 2, 3, 3)]
+		m.Fault = faults[r.Pick(12, 22, 8, 6, 6, 2, 4, 6, 3, 3, 5, 2, 4, 5, 2, 2, 5, 5, 2, 2, 3, 3, 3)]
 		m.Pos = r.Intn(1 << 20)
 		m.Val = r.Intn(256)
 		p.Msgs = append(p.Msgs, m)
@@ -712,6 +712,13 @@ func exec(planJSON []byte, run *core.Run) {
 				break
 			}
 			vpk, vsig = append([]byte{}, in.infPK...), append([]byte{}, in.infSig...)
+		case "sig-infinity":
+			// the group identity as signature under the honest key: e(H(m), pk) = e(O, g) must not hold
+			if in.infSig == nil {
+				applied = false
+				break
+			}
+			vsig = append([]byte{}, in.infSig...)
 		case "ctx-256":
 			if !in.ctxOK {
 				applied = false
